@@ -67,6 +67,15 @@ use crate::{
 #[repr(transparent)]
 pub struct IBig(pub(crate) Repr);
 
+#[cfg(dashu_verif)]
+impl IBig {
+    /// Verification hook: (is_negative, capacity, len, is_heap, data pointer or 0).
+    #[doc(hidden)]
+    pub fn verif_repr(&self) -> (bool, usize, usize, bool, usize) {
+        self.0.verif_repr()
+    }
+}
+
 impl IBig {
     #[rustversion::attr(since(1.64), const)]
     #[inline]
